@@ -22,6 +22,8 @@ CLASS_PROPERTY = {
     "batch_identity": "C10", "batch_content": "C10", "batch_order": "C10", "final_content": "C10", "after_commit_lost": "C10",
     "not_canonical": "C15",
     "kv_point_read": "C11", "kv_member_scan": "C11",
+    "roundtrip_mismatch": "C12", "codec_error": "C12", "codec_stream_differs": "C12", "codec_consumption": "C12",
+    "hash_history_dependent": "C13", "hash_changes_after_codec": "C13", "hash_ambiguous": "C13", "hash_differs_across_processes": "C13",
     "pinned_entry_lost": "C16", "stale_or_ghost_value": "C16", "bound_exceeded": "C16",
     "lost_element": "C02", "set_not_linearizable": "C02",
     "unstable_in_epoch": "C06",
@@ -262,6 +264,42 @@ PROPS["C11"] = dict(
                  "fault kinds here are close/reopen and abandoned batches; kill -9 belongs to C08"],
 )
 
+PROPS["C12"] = dict(
+    bin="codec_sim", packages=["codec_sim"], args=["--prop", "C12"],
+    quick_s=30, thorough_s=300, level="exploration", also=[],
+    rule=("stream simulation driven by a value generator: 1-8 heterogeneous values of a universe of 80 concrete types "
+          "closed under the provided constructors to depth 3 (ints of every width at every 7-bit varint boundary +-1 "
+          "and extremes, floats incl. NaN / -0.0 bit-exact, char, String, tuples, arrays, Vec / VecDeque / LinkedList "
+          "/ BTree* / Hash* with a seeded BuildHasher, Box / Rc / Arc, Option / Result, derived structs and enums incl. "
+          "generic ones and a skipped field, repeated Interned<T> sized and str) are written back to back through ONE "
+          "encoder over a writer that accepts 1..=k bytes per write and may report Interrupted, then read back through "
+          "ONE decoder over a reader that returns 1..=k bytes per read and may report Interrupted (k in {1,2,3,7,64}); "
+          "u16 / i16 exhaustively once per batch. Oracle: decoded == original, bytes identical to a plain write, the "
+          "reader ends exactly at a sentinel suffix, interned duplicates share one allocation. non-trivial = more "
+          "than one byte and a read or write was split; distinct = hash(type sequence, chunking, seed)"),
+    components=dict(real=["qbice_serialize (PostcardEncoder / PostcardDecoder, Encode / Decode impls, derive macros)", "Interned encode / decode"],
+                    stub=["the byte stream: SimWriter / SimReader"]),
+    assumptions=["hard I/O errors, truncation and bit flips are not injected: the property promises nothing about corrupt input",
+                 "the smallvec / bitvec feature build is not covered"],
+)
+PROPS["C13"] = dict(
+    bin="codec_sim", packages=["codec_sim"], args=["--prop", "C13"],
+    quick_s=30, thorough_s=300, level="exploration", also=[],
+    rule=("43 concrete types (scalars, strings, sequences, options / results, tuples, boxes, ordered and unordered "
+          "collections incl. nested ones, derived structs / enums); per case a value is generated, then (a) rebuilt "
+          "three times through different construction histories (another seeded BuildHasher state, shuffled insertion "
+          "order, spare capacity / shrink_to_fit, remove and re-insert) - equal value must give the identical 128-bit "
+          "SipHash and the identical recorded stream; (b) encoded and decoded - same hash; (c) a near-miss value "
+          "(moved field boundary, one element more / fewer, neighbouring variant, None vs Some) must feed a different "
+          "recorded byte stream (sub-hashed children as a sorted multiset of their streams) and a different hash; (d) "
+          "the first 300 values of worker 0 are re-derived in a second process (fresh ASLR) and must hash equally. "
+          "non-trivial = an unordered collection or a near-miss pair was involved; distinct = hash(type, seed)"),
+    components=dict(real=["qbice_stable_hash (StableHash impls, derive, SeededStableHasherBuilder<Sip128Hasher>)"],
+                    stub=["recording StableHasher for the discrimination half"]),
+    assumptions=["128-bit collisions of SipHash are not searched for; -0.0 vs 0.0 is not asserted either way",
+                 "DashMap / DashSet filled by scheduled threads are not covered (sequential construction histories only)"],
+)
+
 HOOK_COMMITS = ["06b6edb", "0ffc033", "d5f7b95", "752f4f3"]
 
 NOT_BUILT = "check not built yet (work in progress in this session; see DESIGN.md section 8 for the order of construction)"
@@ -275,6 +313,22 @@ for _p in [ "C09", "C10", "C11", "C12", "C13", "C15", "C16"]:
         NOT_APPLICABLE[_p] = NOT_BUILT
 
 MANIFEST_TEXT = {
+    "C12": dict(
+        text=("The stream surface is simulated (chunked and interrupted Read / Write, back-to-back values through one "
+              "encoder / decoder); the value quantifier is covered by seeded generation over a typed universe - stated "
+              "as such: only the stream dimension is simulation proper."),
+        design_ref="DESIGN.md section 4 C12",
+        note="trusted: V::same comparisons (bit-exact floats), the sentinel check",
+        technique="deterministic stream simulation (short / interrupted reads and writes) over seeded typed values",
+    ),
+    "C13": dict(
+        text=("History and process are the simulated dimensions (construction histories of unordered collections "
+              "under a seeded BuildHasher, a second process); discrimination is checked on near-miss pairs with a "
+              "recording hasher."),
+        design_ref="DESIGN.md section 4 C13",
+        note="trusted: the recording hasher's canonical stream; near-miss generators",
+        technique="deterministic simulation of construction histories and a second process; recorded-stream oracle",
+    ),
     "C11": dict(
         text=("Model-based simulation of API histories against the real backends with close/reopen and abandoned "
               "batches as fault kinds and adversarial key material; evidence over sampled histories. The backends' "
